@@ -222,7 +222,7 @@ def rand_bipartite_state(dimA, dimB=None, k=None, seed=None, return_dm=False):
     if dimB is None:
         dimB = dimA
     if k is None:
-        ret = rand_haar_state(dimA*dimB, np_rng)
+        ret = rand_haar_state(dimA*dimB, seed=np_rng)
     else:
         assert (0<k) and (k<=dimA) and (k<=dimB)
         tmp0 = np.linalg.qr(_random_complex(dimA, dimA, seed=np_rng), mode='complete')[0][:,:k]
